@@ -19,6 +19,10 @@ def run(chk, tier, replay=None):
     if quick:
         bases.append(t(rng, frames=40, width=128, height=96, content="mix", **{"cfg.logical_processors": 4,
                                                                             "cfg.enable_overlays": 0, "cfg.look_ahead_distance": 17}))
+    # recon and output pools hold ~20 buffers: patterns that leave 25..50 pictures uncollected and then drain
+    deep = t(rng, frames=56, content="rects", **{"cfg.logical_processors": 4, "cfg.recon_enabled": 1, "cfg.hierarchical_levels": 3})
+    deep["_deep"] = 1
+    bases.append(deep)
     groups = []
     for base in bases:
         vs = [equiv.Variant("drain after every send", {"pattern": "drain_each"})]
@@ -29,6 +33,10 @@ def run(chk, tier, replay=None):
         vs.append(equiv.Variant("random polling + sleeps", {"pattern": "random", "poll_pct": 70, "sleep_us": 3000,
                                                             "poll_seed": rng.randrange(1 << 20)}))
         vs.append(equiv.Variant("drain each + sleeps", {"pattern": "drain_each", "sleep_us": 2000}))
+        if base.get("_deep"):
+            for k in (24, 40, 46):
+                vs.append(equiv.Variant("drain every %d sends" % k, {"pattern": "every_k", "every_k": k}))
+            vs.append(equiv.Variant("random polling 4%", {"pattern": "random", "poll_pct": 4, "poll_seed": rng.randrange(1 << 20)}))
         if not quick:
             for k in (2, 5, 8, 31):
                 vs.append(equiv.Variant("drain every %d sends" % k, {"pattern": "every_k", "every_k": k}))
